@@ -54,6 +54,8 @@ const PROFILES: &[Profile] = &[
     Profile { name: "late-votes", lose: 30, hold: 100, hold_vote: 650, lose_heartbeat: 600, dup: 60, append: 20, repartition: 0, tick_skip: 50 },
     Profile { name: "partitions", lose: 20, hold: 60, hold_vote: 100, lose_heartbeat: 30, dup: 40, append: 90, repartition: 40, tick_skip: 30 },
     Profile { name: "stale-leader", lose: 10, hold: 250, hold_vote: 150, lose_heartbeat: 50, dup: 80, append: 140, repartition: 30, tick_skip: 30 },
+    // scripted: builds the Figure-8 shape of the Raft paper directly (see `figure8_phase`), then a light random tail
+    Profile { name: "figure8", lose: 20, hold: 80, hold_vote: 80, lose_heartbeat: 30, dup: 60, append: 80, repartition: 20, tick_skip: 30 },
 ];
 
 struct Engine<'a> {
@@ -196,15 +198,108 @@ impl<'a> Engine<'a> {
                     self.emit(format!("deliver {k}"), true);
                 }
             } else if x < 620 + self.p.dup + self.p.append {
+                // client appends go to a node that believes it is leader (a stale leader counts);
+                // only 1 in 50 is aimed at an arbitrary node to keep the `notleader` path exercised
                 let l = self.leaders();
-                let n = if l.is_empty() || self.rng.chance(50) { self.rng.below(self.size) } else { *self.rng.pick(&l) };
-                self.next_data += 1;
-                self.emit(format!("append {n} {}", self.next_data), true);
+                let stray = self.rng.chance(20);
+                if l.is_empty() && !stray {
+                    let dt = *self.rng.pick(&dts);
+                    self.time_step(dt.max(1), true);
+                } else {
+                    let n = if l.is_empty() || stray { self.rng.below(self.size) } else { *self.rng.pick(&l) };
+                    self.next_data += 1;
+                    self.emit(format!("append {n} {}", self.next_data), true);
+                }
             } else {
                 let dt = *self.rng.pick(&dts);
                 self.time_step(dt.max(1), true);
             }
         }
+    }
+
+    fn connect(&mut self, set: &[u64]) {
+        self.isolated = (0..self.size).filter(|i| !set.contains(i)).collect();
+    }
+
+    /// deliver what can be delivered (oldest first), let time pass, until `pred` holds
+    fn run_until(&mut self, limit: u64, pred: &dyn Fn(&crate::sim::Sim) -> bool) -> bool {
+        let (_, hb, _) = self.cfg;
+        for _ in 0..limit {
+            for _ in 0..40 {
+                let next = self.pending.iter().cloned().find(|k| self.deliverable(*k));
+                let Some(k) = next else { break };
+                self.pending.retain(|j| *j != k);
+                self.delivered.push(k);
+                self.emit(format!("deliver {k}"), false);
+                if pred(self.sim()) {
+                    return true;
+                }
+            }
+            if pred(self.sim()) {
+                return true;
+            }
+            let dt = hb / 2 + 1 + self.rng.below(hb / 2 + 1);
+            self.time_step(dt, false);
+        }
+        pred(self.sim())
+    }
+
+    fn term_of(&self, i: u64) -> u64 {
+        self.sim().dump(i as usize).term
+    }
+
+    /// The Figure-8 shape of the Raft paper on three nodes, built directly:
+    /// 1. A wins a term and appends `a` that reaches nobody, A is cut off;
+    /// 2. B wins a later term with C's vote and appends `b` that reaches nobody, B is cut off;
+    /// 3. A comes back with C only, wins a still later term and replicates its OLD-term entry `a`
+    ///    to C (a majority) - `Cluster::commit` counts replicas regardless of the entry's term;
+    /// 4. A is cut off, B comes back with C only: its last term is newer, it wins and overwrites `a`.
+    /// Messages across a cut stay pending and are delivered after the heal (stale traffic).
+    fn figure8_phase(&mut self) {
+        let all: Vec<u64> = (0..self.size).collect();
+        self.connect(&all);
+        if !self.run_until(60, &|s| (0..s.nodes.len()).any(|i| s.is_leader(i))) {
+            return;
+        }
+        let a = self.leaders()[0];
+        let others: Vec<u64> = all.iter().cloned().filter(|i| *i != a).collect();
+        let (b, c) = (others[0], others[1]);
+        self.connect(&[]);
+        self.next_data += 1;
+        self.emit(format!("append {a} {}", self.next_data), false);
+        *self.hist.entry("figure8:step1".into()).or_insert(0) += 1;
+        // 2. B and C only
+        self.connect(&[b, c]);
+        let ta = self.term_of(a);
+        if !self.run_until(120, &|s| s.is_leader(b as usize) && s.dump(b as usize).term > ta) {
+            return;
+        }
+        self.connect(&[]);
+        self.next_data += 1;
+        self.emit(format!("append {b} {}", self.next_data), false);
+        *self.hist.entry("figure8:step2".into()).or_insert(0) += 1;
+        // 3. A and C only: A wins a later term and pushes its old entry to C
+        self.connect(&[a, c]);
+        let tb = self.term_of(b);
+        if !self.run_until(160, &|s| s.is_leader(a as usize) && s.dump(a as usize).term > tb) {
+            return;
+        }
+        *self.hist.entry("figure8:step3".into()).or_insert(0) += 1;
+        let committed = self.run_until(40, &|s| s.nodes[a as usize].storage.logs.iter().any(|e| e.committed));
+        if committed {
+            *self.hist.entry("figure8:old-term-entry-committed".into()).or_insert(0) += 1;
+        }
+        // 4. B and C only: B's last term is newer than C's
+        self.connect(&[b, c]);
+        let ta = self.term_of(a);
+        if !self.run_until(160, &|s| s.is_leader(b as usize) && s.dump(b as usize).term > ta) {
+            return;
+        }
+        *self.hist.entry("figure8:step4".into()).or_insert(0) += 1;
+        self.run_until(40, &|s| s.nodes[c as usize].storage.logs.iter().filter(|e| e.committed).count() >= 1
+            && s.nodes[b as usize].storage.logs.iter().any(|e| e.committed));
+        // 5. heal: everything held across the cuts may now arrive
+        self.connect(&all);
     }
 
     /// every message sent from now on is delivered exactly once (random order), time advances by
@@ -309,10 +404,11 @@ pub(crate) fn generate(r: &mut Runner, seed: u64, tier: &str, corpus: Option<&st
         } else {
             let w: &[usize] = match prop.as_str() {
                 "C27" => &[0, 1, 1, 2, 2, 2, 2, 3, 4],
-                _ => &[0, 1, 1, 2, 3, 3, 3, 4, 4, 4],
+                _ => &[0, 1, 1, 2, 3, 3, 3, 4, 4, 4, 5, 5],
             };
             PROFILES[*rng.pick(w)].clone()
         };
+        let size = if profile.name == "figure8" { 3 } else { size };
         *hist.entry(format!("profile:{}", profile.name)).or_insert(0) += 1;
         *hist.entry(format!("size:{size}")).or_insert(0) += 1;
         *hist.entry(format!("timing:{}/{}/{}", cfg.0, cfg.1, cfg.2)).or_insert(0) += 1;
@@ -339,7 +435,12 @@ pub(crate) fn generate(r: &mut Runner, seed: u64, tier: &str, corpus: Option<&st
             let appends = e.rng.below(4);
             e.fault_free_phase(appends);
         } else {
-            e.adversarial_phase(steps);
+            if profile.name == "figure8" {
+                e.figure8_phase();
+                e.adversarial_phase(steps / 4);
+            } else {
+                e.adversarial_phase(steps);
+            }
             // a third of the cases end with a healed, fault-free tail (late commits, re-elections)
             if e.rng.chance(330) {
                 e.fault_free_phase(2);
